@@ -5,6 +5,7 @@ import (
 	"encoding/hex"
 	"encoding/json"
 	"fmt"
+	"strings"
 	"time"
 
 	"github.com/lidofinance/dc4bc/client/types"
@@ -44,6 +45,10 @@ type Loop struct {
 	// AfterStep, when set, runs after every scheduler action (crash
 	// bookkeeping, restarts).
 	AfterStep func()
+	// OnInjectedConsumed, when set, makes the tick that consumes an
+	// adversarial board entry consume exactly that entry, with byte-exact
+	// snapshots of the node's state DB taken before and after.
+	OnInjectedConsumed func(n *HotNode, off uint64, inj *Inject, before, after map[string][]byte, failed bool, panicked string)
 }
 
 func NewLoop(w *World) *Loop {
@@ -64,8 +69,46 @@ func (l *Loop) pollAction(n *HotNode) Action {
 				n.Handle.ReadLimit = 1 + w.Tape.Choose(avail-1, "shortN")
 			}
 		}
-		w.RunTask(inc.Poller)
+		var inj *Inject
+		var off uint64
+		var before map[string][]byte
+		nLog := 0
+		if l.OnInjectedConsumed != nil {
+			off = n.Offset()
+			if inj = w.Board.Injected[off]; inj != nil {
+				n.Handle.ReadLimit = 1
+				before = n.Snapshot()
+				nLog = len(inc.Logger.Lines)
+			}
+		}
+		w.RunPollTick(inc.Poller)
 		n.Handle.ReadLimit = 0
+		if inj != nil {
+			failed := false
+			inc.Logger.mu.Lock()
+			if nLog > len(inc.Logger.Lines) {
+				nLog = 0
+			}
+			for _, ln := range inc.Logger.Lines[nLog:] {
+				if strings.HasPrefix(ln, fmt.Sprintf("Failed to process message with offset %d", off)) {
+					failed = true
+				}
+			}
+			inc.Logger.mu.Unlock()
+			pan := ""
+			if inc.Poller.Done() {
+				w.collectPanics(n)
+				if len(n.Panics) > 0 {
+					pan = n.Panics[len(n.Panics)-1]
+				}
+			}
+			var after map[string][]byte
+			if s, err := inc.real.SimSnapshot(); err == nil {
+				after = s
+			}
+			inj.Seen[n.Idx] = true
+			l.OnInjectedConsumed(n, off, inj, before, after, failed, pan)
+		}
 		if inc.Poller.Done() && n.inc == inc {
 			// Poll returned or panicked: the daemon process is gone
 			w.collectPanics(n)
@@ -203,6 +246,10 @@ type Operator struct {
 	// (the file is still on the stick): resubmitted instead of re-processing
 	// when the node asks for the same operation again (e.g. after a crash)
 	results map[string][]byte
+	// PreAir / PreSubmit let a scenario present extra (malformed) inputs right
+	// before the genuine operation file / result is handed over.
+	PreAir    func(op *types.Operation, opJSON []byte)
+	PreSubmit func(op *types.Operation, body []byte)
 	// Refeed makes the operator process the operation on the airgapped
 	// machine again even if a result file exists (C12, C15)
 	Refeed bool
@@ -257,6 +304,12 @@ func (o *Operator) Handle(w *World, op *types.Operation) *APIResult {
 		return get
 	}
 	opJSON := []byte(get.Result)
+	if o.PreAir != nil {
+		o.PreAir(op, opJSON)
+		if w.Failed() {
+			return &APIResult{ErrMsg: "aborted"}
+		}
+	}
 	var res []byte
 	var err error
 	if cached, ok := o.results[op.ID]; ok && !o.Refeed {
@@ -297,6 +350,12 @@ func (o *Operator) Handle(w *World, op *types.Operation) *APIResult {
 		body = o.Tamper(op, body)
 		if body == nil {
 			return &APIResult{ErrMsg: "dropped by carrier"}
+		}
+	}
+	if o.PreSubmit != nil {
+		o.PreSubmit(op, body)
+		if w.Failed() {
+			return &APIResult{ErrMsg: "aborted"}
 		}
 	}
 	rep := w.CallAPI(n, "submit", "POST", "/handleProcessedOperationJSON", body)
